@@ -101,7 +101,7 @@ def tie(tier, seed):
     items = items_for(tier, seed)
     out, errors = par.run(items, export_item)
     agree = total = skipped = 0
-    thm_yes = thm_no = thm_other = 0
+    thm_yes = thm_no = thm_other = closing = 0
     thm_unmet = []
     mism = []
     shapes = {}
@@ -125,6 +125,8 @@ def tie(tier, seed):
                     thm_yes += 1
                 elif x[3] == 2:
                     thm_other += 1
+                elif x[3] == 3:
+                    closing += 1
                 else:
                     thm_no += 1
                     if len(thm_unmet) < 4:
@@ -136,5 +138,6 @@ def tie(tier, seed):
     return {"calls_compared": total, "agree": agree, "mismatch_count": total - agree, "mismatches": mism,
             "single_successor_insertions_meeting_path_theorem_hypotheses": thm_yes,
             "single_successor_insertions_not_meeting_them": thm_no, "unmet_examples": thm_unmet,
+            "closings_meeting_the_hypotheses_of_the_closing_theorem": closing,
             "other_insertions": thm_other,
             "calls_by_shape": shapes, "skipped": skipped, "harness_errors": [repr(e)[:200] for e in errors][:3]}
